@@ -70,6 +70,8 @@ func ParseOpts(args []string) Opts {
 			o.Recursive = false
 		case a == "--checksum":
 			o.Checksum = true
+		case a == "--no-checksum", a == "--no-c":
+			o.Checksum = false
 		case a == "--ignore-times":
 			o.Ignore = true
 		case a == "--recursive":
